@@ -10,7 +10,6 @@ func VerifC01_step_calcTactic() {
 	e := vArbitrary(vParam("n", 2))
 	e.assumeHead()
 	proceed, err := e.d.calcTactic()
-	vAssert(e.divCalls <= 1, "calcTactic divides at most once")
 	vAssert(err != ErrQuantityExceeded, "C01: the in-flight total never exceeds HandlersQuantity (no ErrQuantityExceeded from a state satisfying the invariant)")
 	if err != nil {
 		vAssert(err == ErrDividerBad || true, "error is reported")
@@ -35,7 +34,6 @@ func VerifC01_step_recalcTactic() {
 	e := vArbitrary(vParam("n", 2))
 	e.assumeRound()
 	proceed, err := e.d.recalcTactic()
-	vAssert(e.divCalls <= 2, "recalcTactic divides at most twice")
 	if err != nil {
 		e.assertHead("after recalcTactic (error)")
 		vReach("err")
